@@ -253,6 +253,17 @@ type exec struct {
 // one simulated process, in lockstep with the model. onStep sees every step; the
 // run stops at the first step that has problems (model and reality have diverged).
 func (s *Sess) RunProcess(r *rand.Rand, h *History, m vkit.Mode, noColor bool, mutate func(tp *TestPlan, idx int, op *Op), onStep func(o Op, res StepResult) bool) bool {
+	return s.RunProcessN(r, h, m, noColor, 0, mutate, onStep)
+}
+
+// RunProcessN is RunProcess with the executions per test capped at maxExecs (0 = as planned).
+func (s *Sess) RunProcessN(r *rand.Rand, h *History, m vkit.Mode, noColor bool, maxExecs int, mutate func(tp *TestPlan, idx int, op *Op), onStep func(o Op, res StepResult) bool) bool {
+	execsOf := func(tp *TestPlan) int {
+		if maxExecs > 0 && tp.Execs > maxExecs {
+			return maxExecs
+		}
+		return tp.Execs
+	}
 	s.NewProcess(m, noColor)
 	for f, ents := range h.Pre {
 		for _, e := range ents {
@@ -281,7 +292,7 @@ func (s *Sess) RunProcess(r *rand.Rand, h *History, m vkit.Mode, noColor bool, m
 	if !h.Interleave {
 		for i := range h.Tests {
 			tp := &h.Tests[i]
-			for x := 0; x < tp.Execs; x++ {
+			for x := 0; x < execsOf(tp); x++ {
 				e := &exec{t: vkit.NewT(tp.Name), plan: tp}
 				for e.next < len(tp.Ops) {
 					if !stepOne(e) {
@@ -298,7 +309,7 @@ func (s *Sess) RunProcess(r *rand.Rand, h *History, m vkit.Mode, noColor bool, m
 	remaining := make([]int, len(h.Tests))
 	live := make([]*exec, len(h.Tests))
 	for i := range h.Tests {
-		remaining[i] = h.Tests[i].Execs
+		remaining[i] = execsOf(&h.Tests[i])
 	}
 	for {
 		var cand []int
